@@ -21,7 +21,7 @@ PROPERTY = "C08"
 STUBS = c04.STUBS[1:] + ["variable values: floats are symbolic reals in [0.125, 4]; int variables used as durations are symbolic multiples of 4 in [8, 40]; "
                          "index variables are concrete"]
 FLOAT_MODE = "R-mode reals for variable values"
-BOUNDS = {"quick": dict(templates=6, expression_depth="<=3", builds=3), "thorough": dict(templates=6, expression_depth="<=3", builds=3)}
+BOUNDS = {"quick": dict(templates=6, expression_depth="<=3", builds=3), "thorough": dict(templates=6, expression_depth="<=3", builds=4, prefixes="every proper prefix of a template that already uses a variable")}
 OUTSIDE = ["mappable-register order is concrete enumeration", "np.sin/cos/... of variables are uninterpreted functions"]
 
 E = c04.E
@@ -45,8 +45,16 @@ TEMPLATES = dict(c04.PARAM_PROGRAMS)
 TEMPLATES.update(EXTRA)
 
 
+def uses_variable(ops):
+    import json
+
+    return '"e":' in json.dumps(ops) or '"var"' in json.dumps(ops)
+
+
 def h_build(shape):
     P = TEMPLATES[shape["program"]]
+    if shape.get("upto"):
+        P = dict(P, prog=P["prog"][:shape["upto"]])
 
     def h(inp):
         stubs.bind(inp)
@@ -136,6 +144,12 @@ def h_mappable(shape):
 
 def kernels(tier):
     ks = [("build", dict(program=name)) for name in TEMPLATES]
+    if tier != "quick":
+        # every proper prefix that already uses a variable is a template of its own
+        for name, P in TEMPLATES.items():
+            for n in range(2, len(P["prog"])):
+                if uses_variable(P["prog"][:n]):
+                    ks.append(("build", dict(program=name, upto=n)))
     ids12 = ["q%d" % i for i in range(12)]
     ks.append(("mappable", dict(ids=ids12, chosen={q: i for i, q in enumerate(ids12)}, index=2)))
     ks.append(("mappable", dict(ids=ids12, chosen={q: 29 - i for i, q in enumerate(ids12[:11])}, index=10)))
